@@ -131,13 +131,54 @@ def run_one(m, repo, slot, pids=None):
         shutil.rmtree(scratch, ignore_errors=True)
 
 
+def _facts_only(m, repo, slot, outdir):
+    """scratch copy + patch + fact extraction; returns (status, detail, path of the kept fact file or None)"""
+    scratch = make_scratch(repo)
+    try:
+        ok, msg = apply_mutant(m, scratch)
+        if not ok:
+            return 'skipped', 'does not apply to the current tree: ' + msg, None
+        tdir = os.path.join(extract_mod.CACHE, 'target-mut-%d' % slot)
+        try:
+            try:
+                paths, info = extract_mod.extract(scratch, 'default', target_dir=tdir)
+            except RuntimeError:
+                time.sleep(1.0)
+                paths, info = extract_mod.extract(scratch, 'default', target_dir=tdir)
+        except RuntimeError as e:
+            return 'does-not-compile', str(e), None
+        out = os.path.join(outdir, m['id'].replace('/', '_') + '.json')
+        shutil.copy(paths['ggrs'], out)
+        shutil.rmtree(os.path.dirname(paths['ggrs']), ignore_errors=True)
+        return 'ok', '', out
+    finally:
+        shutil.rmtree(scratch, ignore_errors=True)
+
+
+def _evaluate(args):
+    """(process pool) the obligations of the given properties on a kept fact file"""
+    path, props = args
+    from . import engine
+    W = World(Facts(path))
+    known = {k['key'] for k in engine.known_findings().get('known', [])}
+    fired = []
+    for pid in props:
+        mod, obs = engine.run_obligations(pid, W, 'quick', 'default')
+        for ob in obs:
+            for v in ob.violations:
+                if v['key'] not in known:
+                    fired.append(dict(ob=ob.id, key=v['key'], what=v['what'][:300], where=v.get('where')))
+    return fired
+
+
 def run(pid=None, repo='/repo', jobs=8, quiet=False, ids=None):
+    """facts of every mutant / neutral edit / seeded change of the property are extracted on scratch copies of the current tree (threads: the work is in cargo),
+    then the property's obligations are evaluated on each in a process pool (the rule engine is CPU-bound python)."""
+    from concurrent.futures import ProcessPoolExecutor
     ms = load_mutants(pid)
     if ids:
         ms = [m for m in ms if any(i in m['id'] for i in ids)]
     t0 = time.time()
-    results = []
-    # warm per-slot target dirs by copying the main one once
     main_t = os.path.join(extract_mod.CACHE, 'target-default')
     for s in range(jobs):
         tdir = os.path.join(extract_mod.CACHE, 'target-mut-%d' % s)
@@ -147,17 +188,43 @@ def run(pid=None, repo='/repo', jobs=8, quiet=False, ids=None):
     slots = queue.Queue()
     for s in range(jobs):
         slots.put(s)
+    outdir = tempfile.mkdtemp(prefix='ggrs-km-facts-')
 
     def work(m):
         s = slots.get()
         try:
-            return run_one(m, repo, s, [pid] if pid else None)
+            return _facts_only(m, repo, s, outdir)
         except Exception as e:  # never let the self-test break a check
-            return dict(id=m['id'], status='error', detail='%s: %s' % (type(e).__name__, e), expect=as_list(m.get('expect')))
+            return 'error', '%s: %s' % (type(e).__name__, e), None
         finally:
             slots.put(s)
-    with ThreadPoolExecutor(max_workers=jobs) as ex:
-        results = list(ex.map(work, ms))
+    try:
+        with ThreadPoolExecutor(max_workers=jobs) as ex:
+            fx = list(ex.map(work, ms))
+        todo = [(i, path) for i, (st, det, path) in enumerate(fx) if path]
+        fired_by = {}
+        with ProcessPoolExecutor(max_workers=min(14, max(1, len(todo)))) as ex:
+            for (i, path), fired in zip(todo, ex.map(_evaluate, [(path, [pid] if pid else as_list(ms[i].get('check', ms[i].get('property')))) for i, path in todo])):
+                fired_by[i] = fired
+    finally:
+        shutil.rmtree(outdir, ignore_errors=True)
+    results = []
+    for i, m in enumerate(ms):
+        st, det, path = fx[i]
+        res = dict(id=m['id'], desc=m.get('desc', ''), expect=as_list(m.get('expect')))
+        if path is None:
+            res['status'] = st
+            res['detail'] = det
+        else:
+            fired = fired_by.get(i, [])
+            res['fired'] = fired
+            exp = res['expect']
+            hit = [f for f in fired if not exp or any(f['ob'] == e or f['ob'].startswith(e) for e in exp)]
+            if m.get('neutral'):
+                res['status'] = 'FALSE-ALARM' if fired else 'quiet-ok'
+            else:
+                res['status'] = 'killed' if hit else ('killed-elsewhere' if fired else 'missed')
+        results.append(res)
     summary = {}
     for r in results:
         summary[r['status']] = summary.get(r['status'], 0) + 1
